@@ -836,7 +836,7 @@ Error RACFGBuilder::on_invoke(InvokeNode* invoke_node, RAInstBuilder& ib) noexce
 
   // Setup clobbered registers.
   for (RegGroup group : Support::enumerate(RegGroup::kMaxVirt)) {
-    ib._clobbered[group] = Support::lsb_mask<RegMask>(_pass._phys_reg_count.get(group)) & ~fd.preserved_regs(group);
+    ib._clobbered[group] |= Support::lsb_mask<RegMask>(_pass._phys_reg_count.get(group)) & ~fd.preserved_regs(group);
   }
 
   return Error::kOk;
